@@ -1,5 +1,7 @@
 import TrionModel.Lemmas.Scope
 import TrionModel.Lemmas.ScopePanic
+import TrionModel.Lemmas.ScopeFrame
+import TrionModel.Lemmas.ScopeRun
 /-!
 # C14 — constant visibility follows file scope
 
@@ -331,12 +333,6 @@ theorem dup_reserved {s : State} {f : Saved} {fs : List Saved} {n : Bytes} {v : 
 which touches no table.  `l` is the current file's table, `s.globals` its includer's table (the real global table for
 the root file). -/
 
-private theorem set_change (l : Table) (n : Bytes) (v : Option Int) (m : Bytes) :
-    (l.set n v).find m = l.find m ∨ (m = n ∧ (l.set n v).find m = some v) := by
-  by_cases h : n = m
-  · subst h; exact .inr ⟨rfl, Table.find_set_same _ _ _⟩
-  · exact .inl (Table.find_set_other _ _ _ _ h)
-
 /-- C14.isolation (own definitions)  `.const n, v` / `n:` change nothing but the entry `n` of the file's own table, which
 becomes `v`; the includer's table is untouched: a definition is visible only in the file that makes it. -/
 theorem isolation_define {s s' : State} {l : Table} {n : Bytes} {v : Int} {tag : Nat} {r : Option Level}
@@ -434,35 +430,8 @@ theorem frame_export {s s' : State} {l : Table} {n : Bytes} {tag : Nat} {r : Opt
     (hl : s.locals = some l) (h : stmt s (.export n tag) = .ok (s', r)) :
     s'.locals = s.locals ∧ ∀ m, s'.globals.find m = s.globals.find m ∨
       (m = n ∧ (∀ w, s.globals.find n ≠ some (some w)) ∧
-        ∃ v, l.find n = some (some v) ∧ s'.globals.find m = some (some v)) := by
-  simp only [stmt] at h
-  unfold doExport at h
-  split at h
-  · cases h
-  · cases h; exact ⟨rfl, fun m => .inl rfl⟩
-  · cases h; exact ⟨rfl, fun m => .inl rfl⟩
-  · rename_i v hg
-    have hlf : l.find n = some (some v) := by
-      rw [getConstant_loc hl] at hg
-      exact get_found (Except.ok.inj hg)
-    have key : ∀ {s1 : State} {res : Except CErr Bool}, insertConstant s n v .global = .ok (s1, res) →
-        s1.locals = s.locals ∧ ∀ m, s1.globals.find m = s.globals.find m ∨
-          (m = n ∧ (∀ w, s.globals.find n ≠ some (some w)) ∧
-            ∃ v, l.find n = some (some v) ∧ s1.globals.find m = some (some v)) := by
-      intro s1 res hi
-      obtain ⟨hlo, hc⟩ := insertConstant_glob_char hi
-      refine ⟨hlo, fun m => ?_⟩
-      rcases hc with hc | ⟨hun, hc⟩
-      · rw [hc]; exact .inl rfl
-      · rw [hc]
-        rcases set_change s.globals n (some v) m with h1 | ⟨h1, h2⟩
-        · exact .inl h1
-        · exact .inr ⟨h1, hun, v, hlf, h2⟩
-    split at h
-    · cases h
-    · rename_i hi; cases h; have hk := key hi; exact hk
-    · rename_i hi; cases h; have hk := key hi; exact hk
-    · cases h
+        ∃ v, l.find n = some (some v) ∧ s'.globals.find m = some (some v)) :=
+  frame_export_lem hl h
 
 /-- C14.frame (upwards by `.global`, end of file)  the closure scheduled by `.global n` leaves the file's own table
 alone and changes the includer's table at most at `n`, where an unvalued entry receives the file's own value. -/
@@ -470,35 +439,8 @@ theorem frame_global_task {s s' : State} {l : Table} {n : Bytes} {tag : Nat} {r 
     (hl : s.locals = some l) (h : runTask s (.globalCopy n tag) = .ok (s', r)) :
     s'.locals = s.locals ∧ ∀ m, s'.globals.find m = s.globals.find m ∨
       (m = n ∧ (∀ w, s.globals.find n ≠ some (some w)) ∧
-        ∃ v, l.find n = some (some v) ∧ s'.globals.find m = some (some v)) := by
-  simp only [runTask] at h
-  unfold runGlobalCopy at h
-  split at h
-  · cases h
-  · cases h; exact ⟨rfl, fun m => .inl rfl⟩
-  · cases h; exact ⟨rfl, fun m => .inl rfl⟩
-  · rename_i v hg
-    have hlf : l.find n = some (some v) := by
-      rw [getConstant_loc hl] at hg
-      exact get_found (Except.ok.inj hg)
-    have key : ∀ {s1 : State} {res : Except CErr Bool}, insertConstant s n v .global = .ok (s1, res) →
-        s1.locals = s.locals ∧ ∀ m, s1.globals.find m = s.globals.find m ∨
-          (m = n ∧ (∀ w, s.globals.find n ≠ some (some w)) ∧
-            ∃ v, l.find n = some (some v) ∧ s1.globals.find m = some (some v)) := by
-      intro s1 res hi
-      obtain ⟨hlo, hc⟩ := insertConstant_glob_char hi
-      refine ⟨hlo, fun m => ?_⟩
-      rcases hc with hc | ⟨hun, hc⟩
-      · rw [hc]; exact .inl rfl
-      · rw [hc]
-        rcases set_change s.globals n (some v) m with h1 | ⟨h1, h2⟩
-        · exact .inl h1
-        · exact .inr ⟨h1, hun, v, hlf, h2⟩
-    split at h
-    · cases h
-    · rename_i hi; cases h; have hk := key hi; exact hk
-    · rename_i hi; cases h; have hk := key hi; exact hk
-    · cases h
+        ∃ v, l.find n = some (some v) ∧ s'.globals.find m = some (some v)) :=
+  frame_global_task_lem hl h
 
 /-- C14.frame (upwards by `.global`, the statement)  `.global n` changes the file's own table at most at `n` (an absent
 entry becomes "announced") and the includer's table at most at `n`, and only if the includer had no entry: it becomes
@@ -507,106 +449,8 @@ theorem frame_global {s s' : State} {l : Table} {n : Bytes} {tag : Nat} {r : Opt
     (hl : s.locals = some l) (h : stmt s (.global n tag) = .ok (s', r)) :
     (∃ l', s'.locals = some l' ∧ ∀ m, l'.find m = l.find m ∨ (m = n ∧ l.find n = none ∧ l'.find m = some none)) ∧
     (∀ m, s'.globals.find m = s.globals.find m ∨ (m = n ∧ s.globals.find n = none ∧
-      (s'.globals.find m = some none ∨ ∃ v, l.find n = some (some v) ∧ s'.globals.find m = some (some v)))) := by
-  simp only [stmt] at h
-  unfold doGlobal at h
-  split at h
-  · cases h
-  · rename_i hd; cases h
-    have := deferConstant_error hd; subst this
-    exact ⟨⟨l, hl, fun m => .inl rfl⟩, fun m => .inl rfl⟩
-  · rename_i hd; cases h
-    have := deferConstant_error hd; subst this
-    exact ⟨⟨l, hl, fun m => .inl rfl⟩, fun m => .inl rfl⟩
-  · rename_i s1 hd
-    obtain ⟨h1, h2⟩ := deferConstant_glob_char hd
-    have hl1 : s1.locals = some l := by rw [h1, hl]
-    -- the includer's table after the announcement
-    have hg1 : ∀ m, s1.globals.find m = s.globals.find m ∨
-        (m = n ∧ s.globals.find n = none ∧ s1.globals.find m = some none) := by
-      intro m
-      rcases h2 with h2 | ⟨hn, h2⟩
-      · rw [h2]; exact .inl rfl
-      · rw [h2]
-        rcases set_change s.globals n none m with h3 | ⟨h3, h4⟩
-        · exact .inl h3
-        · exact .inr ⟨h3, hn, h4⟩
-    have hg1n : s.globals.find n = none ∨ s1.globals = s.globals := by
-      rcases h2 with h2 | ⟨hn, _⟩
-      · exact .inr h2
-      · exact .inl hn
-    split at h
-    · cases h
-    · -- the file already has a value: exported at once
-      rename_i v hgc
-      have hlf : l.find n = some (some v) := by
-        rw [getConstant_loc hl1] at hgc
-        exact get_found (Except.ok.inj hgc)
-      split at h
-      · cases h
-      · cases h
-      · cases h
-      · rename_i s2 hi; cases h
-        obtain ⟨h3, h4⟩ := insertConstant_glob_char hi
-        refine ⟨⟨l, by rw [h3, hl1], fun m => .inl rfl⟩, fun m => ?_⟩
-        rcases h4 with h4 | ⟨_, h4⟩
-        · rw [h4]
-          rcases hg1 m with h5 | ⟨h5, h6, h7⟩
-          · exact .inl h5
-          · exact .inr ⟨h5, h6, .inl h7⟩
-        · rw [h4]
-          rcases set_change s1.globals n (some v) m with h5 | ⟨h5, h6⟩
-          · rw [h5]
-            rcases hg1 m with h7 | ⟨h7, h8, h9⟩
-            · exact .inl h7
-            · exact .inr ⟨h7, h8, .inl h9⟩
-          · rcases hg1n with hn | hsame
-            · exact .inr ⟨h5, hn, .inr ⟨v, hlf, h6⟩⟩
-            · -- the announcement failed to change the table only if it errored, which is not this branch
-              unfold deferConstant at hd
-              split at hd
-              · cases hd
-              · simp only at hd
-                split at hd
-                · cases hd
-                · rename_i hfn; exact .inr ⟨h5, hfn, .inr ⟨v, hlf, h6⟩⟩
-    · -- no entry yet: announce locally, schedule the copy
-      rename_i hgc
-      have hlf : l.find n = none := by
-        rw [getConstant_loc hl1] at hgc
-        exact get_notFound (Except.ok.inj hgc)
-      split at h
-      · cases h
-      · cases h
-      · rename_i s2 hd2
-        obtain ⟨h3, h4⟩ := deferConstant_loc_char hd2
-        split at h
-        · cases h
-        · rename_i s3 ha; cases h
-          obtain ⟨h5, h6⟩ := addTask_tables ha
-          constructor
-          · rcases h4 with h4 | ⟨l0, hl0, _, h4⟩
-            · exact ⟨l, by rw [h5, h4, hl1], fun m => .inl rfl⟩
-            · rw [hl1] at hl0; cases hl0
-              refine ⟨_, by rw [h5, h4], fun m => ?_⟩
-              rcases set_change l n none m with h7 | ⟨h7, h8⟩
-              · exact .inl h7
-              · exact .inr ⟨h7, hlf, h8⟩
-          · intro m
-            rw [h6, h3]
-            rcases hg1 m with h7 | ⟨h7, h8, h9⟩
-            · exact .inl h7
-            · exact .inr ⟨h7, h8, .inl h9⟩
-    · -- already announced locally: schedule the copy
-      split at h
-      · cases h
-      · rename_i s3 ha; cases h
-        obtain ⟨h5, h6⟩ := addTask_tables ha
-        refine ⟨⟨l, by rw [h5, hl1], fun m => .inl rfl⟩, fun m => ?_⟩
-        rw [h6]
-        rcases hg1 m with h7 | ⟨h7, h8, h9⟩
-        · exact .inl h7
-        · exact .inr ⟨h7, h8, .inl h9⟩
+      (s'.globals.find m = some none ∨ ∃ v, l.find n = some (some v) ∧ s'.globals.find m = some (some v)))) :=
+  frame_global_lem hl h
 
 /-- C14.frame (the other end-of-file task)  a rescheduled `.du32` never changes a table. -/
 theorem frame_use_task {s s' : State} {n : Bytes} {c : Option Int} {tag : Nat} {g : Bool} {r : Option Level}
@@ -620,6 +464,84 @@ own table can differ. -/
 theorem frame_deep {s s' : State} {op : Op} {r : Option Level} (h : stmt s op = .ok (s', r)) :
     s'.frames = s.frames ∧ s'.depth = s.depth :=
   ⟨(eff_stmt h).frames, (eff_stmt h).depth⟩
+
+/-! ## frame — a whole `enter … exit` run with nested includes
+
+`Body` (`Lemmas/ScopeRun.lean`) is an include tree: the body of one file is a sequence of statements and complete
+`.include`s, each with the body of the included file; `Body.flatten` is the op sequence the harness feeds to the model,
+well bracketed by construction; `Body.wf` says the leaves are statements (no stray `enter`/`exit`/`finalize`);
+`Body.names` lists the names the file ITSELF — not the files it includes — exports or declares global. -/
+
+/-- C14.frame (whole include)  A complete `.include` — `enter`, the included file's whole body with arbitrarily nested
+includes, failed files and skipped statements, `exit` with the end-of-file tasks — from a running state of an open file
+whose table is `L`.  With `C` the included file's own table when it is left, the includer's table afterwards is
+`L ∪ {exported/global names with the child's values}`: every entry of `L'` is the entry of `L`, except at names the child
+itself exports or declares global, where an absent or unvalued entry of `L` received the child's value `C[m]` (or an
+absent entry became "announced": a `.global` whose value never arrived).  Nothing below moves: the includer's includer's
+table, the frame stack, the depth and `global_tasks` are exactly as before (`tables s' = L' :: (tables s).tail`), and
+`local_tasks` only received `.du32`s rescheduled by the child. -/
+theorem frame_include {b : Body} (hw : b.wf) {s mid s' : State} {tag : Nat} {L : Table}
+    (hi : Inv s) (hm : s.mode = .running) (hf : s.frames ≠ []) (hL : s.locals = some L)
+    (h1 : run s (.enter tag :: b.flatten) = .ok mid) (h2 : step mid .exit = .ok s') :
+    ∃ C L', mid.locals = some C ∧ s'.locals = some L' ∧
+      (∀ m, L'.find m = L.find m ∨ (m ∈ b.names ∧ (∀ w, L.find m ≠ some (some w)) ∧
+        ((∃ v, C.find m = some (some v) ∧ L'.find m = some (some v)) ∨ (L.find m = none ∧ L'.find m = some none)))) ∧
+      s'.globals = s.globals ∧ s'.frames = s.frames ∧ s'.depth = s.depth ∧ tables s' = L' :: (tables s).tail ∧
+      s'.globalTasks = s.globalTasks ∧
+      (∃ add, s'.localTasks = s.localTasks.map (· ++ add) ∧ ∀ x ∈ add, ∃ n c t, x = .use n c t true) ∧
+      (s'.mode = .running ∨ s'.mode = .stopped .fatal 0) := by
+  obtain ⟨C, hC, ir⟩ := include_nested b (fun i' f' m' h' => body_rel b hw i' f' m' h') hi hf hm h1 h2
+  obtain ⟨L0, L', hL0, hL', hu⟩ := ir.tabs
+  rw [hL] at hL0; cases hL0
+  obtain ⟨lt, add, hlt, hadd, hgu⟩ := ir.ltasks
+  refine ⟨C, L', hC, hL', hu, ir.globals, ir.frames, ir.depth, ?_, ir.gtasks, ⟨add, by rw [hadd, hlt]; rfl, ?_⟩, ir.mode⟩
+  · unfold tables; rw [hL', hL, ir.globals, ir.frames]; rfl
+  · intro x hx
+    have := hgu x hx
+    cases x with
+    | globalCopy n t => exact this.elim
+    | use n c t g =>
+      cases g with
+      | true => exact ⟨n, c, t, rfl⟩
+      | false => exact this.elim
+
+/-- C14.frame (the root file)  The same for a file assembled from outside any file: the "includer's table" is the global
+table, `locals` is `None` again afterwards. -/
+theorem frame_include_root {b : Body} (hw : b.wf) {s mid s' : State} {tag : Nat}
+    (hi : Inv s) (hm : s.mode = .running) (hf : s.frames = [])
+    (h1 : run s (.enter tag :: b.flatten) = .ok mid) (h2 : step mid .exit = .ok s') :
+    ∃ C, mid.locals = some C ∧ s'.locals = none ∧ s'.frames = [] ∧ s'.depth = s.depth ∧ s'.mode = .running ∧
+      (∀ m, s'.globals.find m = s.globals.find m ∨ (m ∈ b.names ∧ (∀ w, s.globals.find m ≠ some (some w)) ∧
+        ((∃ v, C.find m = some (some v) ∧ s'.globals.find m = some (some v)) ∨
+          (s.globals.find m = none ∧ s'.globals.find m = some none)))) ∧
+      ∃ add, s'.globalTasks = s.globalTasks ++ add ∧ ∀ x ∈ add, ∃ n c t, x = .use n c t true := by
+  obtain ⟨C, hC, h3, h4, h5, h6, hu, add, hadd, hgu⟩ := include_root b hw hi hf hm h1 h2
+  refine ⟨C, hC, h5, h3, h4, h6, hu, add, hadd, ?_⟩
+  intro x hx
+  have := hgu x hx
+  cases x with
+  | globalCopy n t => exact this.elim
+  | use n c t g =>
+    cases g with
+    | true => exact ⟨n, c, t, rfl⟩
+    | false => exact this.elim
+
+/-- C14.frame (a file's body, from inside)  Running the body of the current file (or the rest of it) — statements and
+complete nested includes — keeps the frame stack, the depth and `global_tasks`; the file's own table only grows; the
+includer's table (`globals`) changes only at names this file itself exports or declares global, as in `frame_include`. -/
+theorem frame_body {b : Body} (hw : b.wf) {t t' : State} {C G : Table} (hi : Inv t) (hf : t.frames ≠ [])
+    (hm : t.mode = .running ∨ ∃ l, t.mode = .stopped l 0) (hC : t.locals = some C) (hG : t.globals = G)
+    (h : run t b.flatten = .ok t') :
+    ∃ C', t'.locals = some C' ∧ C.le C' ∧
+      (∀ m, t'.globals.find m = G.find m ∨ (m ∈ b.names ∧ (∀ w, G.find m ≠ some (some w)) ∧
+        ((∃ v, C'.find m = some (some v) ∧ t'.globals.find m = some (some v)) ∨
+          (G.find m = none ∧ t'.globals.find m = some none)))) ∧
+      t'.frames = t.frames ∧ t'.depth = t.depth ∧ t'.globalTasks = t.globalTasks := by
+  have br := body_rel b hw hi hf hm h
+  obtain ⟨C0, C', hC0, hC', hle, hu⟩ := br.tabs
+  rw [hC] at hC0; cases hC0
+  subst hG
+  exact ⟨C', hC', hle, hu, br.frames, br.depth, br.gtasks⟩
 
 /-! ## non-vacuity -/
 
@@ -659,5 +581,30 @@ example : (run init [.enter 0, .global x 1, .use x 2, .enter 3, .import x 4, .fi
 
 example : ∃ s, run init [.enter 0, .enter 1, .global x 2, .use x 3, .const x 7 4, .exit, .exit, .exit, .finalize] = .ok s :=
   panic_free _
+
+/-- the hypotheses of `frame_include` / `frame_include_root` are satisfiable for EVERY include tree from every reachable
+running state (panic freedom gives the two runs) … -/
+example (b : Body) (tag : Nat) {s : State} (hi : Inv s) :
+    ∃ mid s', run s (.enter tag :: b.flatten) = .ok mid ∧ step mid .exit = .ok s' := by
+  obtain ⟨mid, h1, i1⟩ := run_ok (.enter tag :: b.flatten) hi
+  obtain ⟨s', h2, _⟩ := step_ok .exit i1
+  exact ⟨mid, s', h1, h2⟩
+
+private def y : Bytes := bytesOf "y"
+private def z : Bytes := bytesOf "z"
+
+/-- … and a concrete tree: the child defines `x`, includes a grandchild that exports `y` to the child (not to the
+includer), exports `x`, declares `z` global without ever defining it, and re-exports nothing else: the includer, which had
+announced `x`, ends with `x = 7` from the child, `z` announced, and no `y` -/
+private def child : Body :=
+  .stmt (.const x 7 2) (.incl 10 (.stmt (.const y 5 11) (.stmt (.export y 12) .nil))
+    (.stmt (.export x 3) (.stmt (.global z 4) (.stmt (.use y 5) .nil))))
+
+example : child.wf ∧ child.names = [x, z] := by simp [child, Body.wf, Body.names, Op.isStmt, Op.names]
+
+example : (run init ([.enter 0, .global x 1, .enter 1] ++ child.flatten ++ [.exit])).toOption.map (·.locals) =
+      some (some [(x, some 7), (z, none)]) ∧
+    (run init ([.enter 0, .global x 1, .enter 1] ++ child.flatten ++ [.exit])).toOption.map (·.globals) =
+      some [(x, none)] := by decide
 
 end Trion.Scope
